@@ -156,11 +156,10 @@ fn layer_styles() -> Vec<Style> {
     vec![Style::default(), s1, s2]
 }
 
-fn run_layer(lc: &LayerCase, ops: &[LOp], cs: &mut Cases, or: &mut Oracle, oracle_on: bool) {
+fn layer_model(lc: &LayerCase) -> Model<'static> {
     let styles = layer_styles();
     let mut m = Model::new_empty("c30l", "en", "UTC", "en").unwrap();
     for (k, s) in styles.iter().enumerate().skip(1) { assert_eq!(m.workbook.styles.create_new_style(s) as usize, k); }
-    let sidx = |s: &Style| styles.iter().position(|x| x == s).map(|p| p as i64).unwrap_or(-9);
     // occupied cells: a value typed into the cell, then (when not 0) a style of its own
     for &(r, c, i) in lc.cells {
         m.set_user_input(0, r, c, "x".to_string()).unwrap();
@@ -168,6 +167,13 @@ fn run_layer(lc: &LayerCase, ops: &[LOp], cs: &mut Cases, or: &mut Oracle, oracl
     }
     m.workbook.worksheets[0].rows = lc.rows.to_vec();
     m.workbook.worksheets[0].cols = lc.cols.to_vec();
+    m
+}
+
+fn run_layer(m: &mut Model, pristine: &Worksheet, lc: &LayerCase, ops: &[LOp], cs: &mut Cases, or: &mut Oracle, oracle_on: bool) {
+    let styles = layer_styles();
+    m.workbook.worksheets[0] = pristine.clone();
+    let sidx = |s: &Style| styles.iter().position(|x| x == s).map(|p| p as i64).unwrap_or(-9);
     // reference reading of the property: the last explicit style assignment to the row / column counts
     let mut row_assigned: Option<i64> = lc.rows.iter().find(|x| x.r == lc.r).and_then(|x| if x.custom_format { Some(x.s as i64) } else { None });
     let mut col_assigned: std::collections::HashMap<i32, Option<i64>> = Default::default();
@@ -263,16 +269,18 @@ fn layer_sweep(cs: &mut Cases, or: &mut Oracle, thorough: bool) -> u64 {
     }
     for (rows, cols) in &layouts {
         let lc = LayerCase { cells: &cells, rows, cols, r, c, probes: &probes };
+        let mut m = layer_model(&lc);
+        let pristine = m.workbook.worksheets[0].clone();
         // every sequence of up to 4 (thorough 5) row operations; every one of up to 4 (5) column operations:
         // each sequence is a case and its LAST operation is read back through all getters, so every
         // pair / triple of operations precedes every styled read-back
         let d = if thorough { 5 } else { 4 };
-        rec(d, &row_ops, &mut vec![], &mut |ops| { run_layer(&lc, ops, cs, or, true); n += 1; });
-        rec(d, &col_ops, &mut vec![], &mut |ops| { run_layer(&lc, ops, cs, or, true); n += 1; });
+        rec(d, &row_ops, &mut vec![], &mut |ops| { run_layer(&mut m, &pristine, &lc, ops, cs, or, true); n += 1; });
+        rec(d, &col_ops, &mut vec![], &mut |ops| { run_layer(&mut m, &pristine, &lc, ops, cs, or, true); n += 1; });
         // rows and columns interleaved, plus a cell of the row / column getting its own style
         let mut mixed: Vec<LOp> = row_ops.iter().chain(col_ops.iter()).cloned().collect();
         mixed.push(LOp { kind: 0, a: 3, b: 71 }); mixed.push(LOp { kind: 0, a: 8, b: 42 });
-        rec(if thorough { 4 } else { 3 }, &mixed, &mut vec![], &mut |ops| { run_layer(&lc, ops, cs, or, true); n += 1; });
+        rec(if thorough { 4 } else { 3 }, &mixed, &mut vec![], &mut |ops| { run_layer(&mut m, &pristine, &lc, ops, cs, or, true); n += 1; });
     }
     n
 }
